@@ -110,13 +110,15 @@ MkCall(op, x, y, dst, tg, ip, a) == [op |-> op, x |-> x, y |-> y, dst |-> dst, t
 Done(c, oc) == [op |-> c.op, x |-> c.x, y |-> c.y, dst |-> c.dst, tg |-> c.tg, ip |-> c.ip, a |-> c.a, outcome |-> oc]
 GeoOps     == {"translate", "scale", "rotate90"}
 UnaryOps   == {"neg", "pos", "abs"}
-BinaryOps  == {"add", "mul"}
-AlgebraOps == UnaryOps \cup BinaryOps \cup {"mulnum", "comp", "lshift"}
+BinaryOps  == {"add", "mul", "sub"}
+ProductOps == {"dot", "cross"}                  \* f.dot(g), f.cross(g): equal component counts (cross: three)
+LengthOps  == {"norm", "orientation"}           \* values are not integers: vx = FALSE, everything else is constrained
+AlgebraOps == UnaryOps \cup BinaryOps \cup ProductOps \cup LengthOps \cup {"mulnum", "comp", "lshift"}
 SelOps     == {"selplane", "selrange", "getsub", "getregion", "pad", "resample"}
 PersistOps == {"h5", "ovf", "vtk", "xarray"}
 ValidOps   == {"setvalid", "mutatevalid"}
-UpdateOps  == {"updateconst", "setarray"}
-FieldMakers == AlgebraOps \cup SelOps \cup PersistOps \cup {"diff", "mkfield"}
+UpdateOps  == {"updateconst", "setarray", "fromfield"}
+FieldMakers == AlgebraOps \cup SelOps \cup PersistOps \cup {"diff", "mkfield", "integrate"}
 
 (* ---- variables of the user ------------------------------------------------------------- *)
 FVseq == <<"f", "g", "h">>
@@ -226,7 +228,7 @@ SameMeshDeep(h, f, g) == SameBox(h, f, g) /\ FR(h, f).dims = FR(h, g).dims /\ FR
 
 (* ---- algebra (C03, C08) ------------------------------------------------------------------ *)
 UnVal(u, v) == CASE u = "neg" -> 0 - v [] u = "abs" -> Abs(v) [] OTHER -> v
-BinVal(op, a, b) == IF op = "add" THEN a + b ELSE a * b
+BinVal(op, a, b) == IF op = "add" THEN a + b ELSE IF op = "sub" THEN a - b ELSE a * b
 BinArr(op, x, y) == [k \in DOMAIN x |-> VecOp(x[k], y[k], LAMBDA a, b : BinVal(op, a, b))]
 (* labels and mapping come from the operand that has the result's components (the left one first) *)
 MetaOf(fx, fy) == IF fx.nv >= fy.nv THEN fx ELSE fy
@@ -285,6 +287,38 @@ ResampleRes(h, f, n2) ==
    LET fo == h[f]  n == FN(h, f)
    IN AllocMF(h, FR(h, f), <<>>, <<>>, n2, LAMBDA mid, fid : Mapped(fo, mid, fid, FA!ResampleSrc(NM(n), n2), n2))
 
+(* a directional integral lives on the mesh with that axis removed (C06): the library takes mesh.sel(direction), the  *)
+(* plane through the central cell, so the subregions that plane passes through come along; its values (sums times a    *)
+(* cell length) are not integers under every embedding: vx = FALSE; all cells valid                                    *)
+IntegrateRes(h, f, d) ==
+   LET fo == h[f]  mo == FM(h, f)  ro == FR(h, f)  n == FN(h, f)
+       j == n[d] \div 2
+       x == RAdd(ro.lo[d], RMul(CellQ(h, f, d), <<2 * j + 1, 2>>))
+       reg2 == DReg(RemoveAt(ro.lo, d), RemoveAt(ro.hi, d), RemoveAt(ro.units, d), RemoveAt(ro.dims, d))
+       keep == SelectSeq(Idx(Len(mo.sub)), LAMBDA s : RLeq(h[mo.sub[s]].lo[d], x) /\ RLeq(x, h[mo.sub[s]].hi[d]))
+       subs == [s \in DOMAIN keep |-> DReg(RemoveAt(h[mo.sub[keep[s]]].lo, d), RemoveAt(h[mo.sub[keep[s]]].hi, d), reg2.units, reg2.dims)]
+       names == [s \in DOMAIN keep |-> mo.names[keep[s]]]
+       n2 == RemoveAt(n, d)
+       N2 == ProdSeq(n2)
+   IN AllocMF(h, reg2, subs, names, n2, LAMBDA mid, fid :
+         DFld(mid, fo.nv, [k \in 1 .. N2 |-> ZeroVec(fo.nv)], [k \in 1 .. N2 |-> TRUE], n2, fo.lab, fo.map, FALSE, fo.mx, fid))
+(* value = another field (C02): every cell gets the value of the source cell containing its centre *)
+CentreQ(h, f, kk, d) == LET i == Unflat(FN(h, f), kk - 1) IN RAdd(FR(h, f).lo[d], RMul(CellQ(h, f, d), <<2 * i[d] + 1, 2>>))
+SrcIdxOf(h, f, g, kk) == [d \in DOMAIN FN(h, f) |-> RFloor(RDiv(RSub(CentreQ(h, f, kk, d), FR(h, g).lo[d]), CellQ(h, g, d)))]
+CentreOnSrcFace(h, f, g) == \E kk \in 1 .. ProdSeq(FN(h, f)) : \E d \in DOMAIN FN(h, f) :
+                               RIsInt(RDiv(RSub(CentreQ(h, f, kk, d), FR(h, g).lo[d]), CellQ(h, g, d)))
+Covers(h, g, f) == \A d \in DOMAIN FN(h, f) : RLeq(FR(h, g).lo[d], FR(h, f).lo[d]) /\ RLeq(FR(h, f).hi[d], FR(h, g).hi[d])
+FromFieldArr(h, f, g) == [kk \in 1 .. ProdSeq(FN(h, f)) |-> At(FN(h, g), h[g].arr, SrcIdxOf(h, f, g, kk))]
+(* mesh.subregions = {"t": box}: the box from cell a to cell b of the mesh, optionally shifted by half a cell (C14) *)
+SetSubBox(h, m, a) ==
+   LET ro == h[h[m].region]  n == h[m].n
+       off == IF a.sh THEN <<1, 2>> ELSE <<0, 1>>
+   IN [lo |-> [d \in DOMAIN n |-> RAdd(ro.lo[d], RMul(CellR(ro, n, d), RAdd(R(a.a[d]), off)))],
+       hi |-> [d \in DOMAIN n |-> RAdd(ro.lo[d], RMul(CellR(ro, n, d), RAdd(R(a.b[d] + 1), off)))]]
+SetSubAccepted(h, m, a) ==
+   LET ro == h[h[m].region]  bx == SetSubBox(h, m, a)
+   IN ~a.sh /\ \A d \in DOMAIN h[m].n : RLeq(ro.lo[d], bx.lo[d]) /\ RLeq(bx.hi[d], ro.hi[d])
+
 (* ---- persistence as identity steps (C09, C10, C16, C17) ------------------------------------- *)
 (* a round trip returns a field on fresh objects; the formats do not store the mapping: the reader's  *)
 (* Field(...) call gets the constructor default, which is the source's mapping iff that was default  *)
@@ -327,6 +361,22 @@ InModel(h, rts, c) ==
                            /\ (fo.nv = go.nv => fo.lab = go.lab /\ fo.map = go.map)
                            /\ (SameMeshDeep(h, o, rts[c.y]) \/ ~SameBox(h, o, rts[c.y]))
                            /\ (fo.vx /\ go.vx => LET big == IF c.op = "mul" THEN 30000 ELSE 500000000 IN MaxAbs(fo.arr) <= big /\ MaxAbs(go.arr) <= big)   \* 32-bit integers in TLC
+                [] c.op \in ProductOps ->
+                      /\ c.y \in DOMAIN rts /\ IsF(h, rts[c.y])
+                      /\ LET go == h[rts[c.y]] IN
+                           /\ fo.nv = go.nv
+                           /\ (SameMeshDeep(h, o, rts[c.y]) \/ ~SameBox(h, o, rts[c.y]))
+                           /\ (fo.vx /\ go.vx => MaxAbs(fo.arr) <= 15000 /\ MaxAbs(go.arr) <= 15000)
+                [] c.op \in LengthOps -> TRUE
+                (* an even cell count puts the region centre on a face: which of the two central cells the plane goes through, *)
+                (* hence which subregions come along, is decided by rounding - outside the model when there are subregions   *)
+                [] c.op = "integrate" -> nd >= 2 /\ c.a.d \in 1 .. nd /\ (n[c.a.d] % 2 = 1 \/ FM(h, o).sub = <<>>)
+                [] c.op = "fromfield" ->
+                      /\ c.y \in DOMAIN rts /\ IsF(h, rts[c.y]) /\ rts[c.y] # o
+                      /\ LET g == rts[c.y] IN
+                           /\ Len(FN(h, g)) = nd /\ FR(h, g).dims = FR(h, o).dims /\ FR(h, g).units = FR(h, o).units
+                           /\ ~CentreOnSrcFace(h, o, g)
+                [] c.op = "setsub" -> Len(c.a.a) = nd /\ Len(c.a.b) = nd /\ \A d \in 1 .. nd : 0 <= c.a.a[d] /\ c.a.a[d] <= c.a.b[d] /\ c.a.b[d] <= n[d]
                 [] c.op = "mulnum" -> fo.vx => (MaxAbs(fo.arr) <= 100000000 /\ Abs(c.a.c) <= 10)
                 [] c.op = "comp" -> fo.lab # <<>> /\ c.a.c \in 1 .. fo.nv
                 [] c.op = "lshift" ->
@@ -370,6 +420,28 @@ Apply(h, rts, c) ==
            IF ~(SameMeshDeep(h, o, p) /\ (fo.nv = go.nv \/ fo.nv = 1 \/ go.nv = 1)) THEN Rej(h, rts)
            ELSE Bound(AllocF(h, LAMBDA fid : DFld(fo.mesh, md.nv, IF fo.vx /\ go.vx THEN BinArr(c.op, fo.arr, go.arr) ELSE [k \in DOMAIN fo.arr |-> ZeroVec(md.nv)],
                                                   AndArr(fo.valid, go.valid), fo.shape, md.lab, md.map, fo.vx /\ go.vx, md.mx, fid)), rts, c.dst)
+     [] c.op \in ProductOps ->
+           LET p == rts[c.y]  fo == h[o]  go == h[p]  vx == fo.vx /\ go.vx IN
+           IF ~SameMeshDeep(h, o, p) \/ (c.op = "cross" /\ fo.nv # 3) THEN Rej(h, rts)
+           ELSE IF c.op = "dot"
+                THEN Bound(AllocF(h, LAMBDA fid : DFld(fo.mesh, 1, [k \in DOMAIN fo.arr |-> IF vx THEN <<Dot(fo.arr[k], go.arr[k])>> ELSE <<0>>],
+                                                       AndArr(fo.valid, go.valid), fo.shape, <<>>, <<>>, vx, TRUE, fid)), rts, c.dst)
+                (* the mapping of a cross product is not stated by any property (the library resets it to the default): mx = FALSE *)
+                ELSE Bound(AllocF(h, LAMBDA fid : DFld(fo.mesh, 3, [k \in DOMAIN fo.arr |-> IF vx THEN Cross(fo.arr[k], go.arr[k]) ELSE ZeroVec(3)],
+                                                       AndArr(fo.valid, go.valid), fo.shape, fo.lab, fo.map, vx, FALSE, fid)), rts, c.dst)
+     [] c.op = "norm" ->
+           Bound(AllocF(h, LAMBDA fid : [h[o] EXCEPT !.vo = fid, !.nv = 1, !.arr = [k \in DOMAIN @ |-> <<0>>], !.lab = <<>>, !.map = <<>>, !.mx = TRUE, !.vx = FALSE]), rts, c.dst)
+     [] c.op = "orientation" ->
+           Bound(AllocF(h, LAMBDA fid : [h[o] EXCEPT !.vo = fid, !.arr = [k \in DOMAIN @ |-> ZeroVec(h[o].nv)], !.vx = FALSE]), rts, c.dst)
+     [] c.op = "integrate" -> Bound(IntegrateRes(h, o, c.a.d), rts, c.dst)
+     [] c.op = "fromfield" ->
+           LET g == rts[c.y] IN
+           IF ~(Covers(h, g, o) /\ h[o].nv = h[g].nv) THEN Rej(h, rts)
+           ELSE [heap |-> [h EXCEPT ![o].arr = FromFieldArr(h, o, g), ![o].vx = h[g].vx], roots |-> rts, outcome |-> "ok"]
+     [] c.op = "setsub" ->
+           LET m == h[o].mesh  bx == SetSubBox(h, m, c.a)  ro == h[h[m].region]  id == MaxSet(DOMAIN h) + 1 IN
+           IF ~SetSubAccepted(h, m, c.a) THEN Rej(h, rts)
+           ELSE Ok([Ext(h, id, DReg(bx.lo, bx.hi, ro.units, ro.dims)) EXCEPT ![m].sub = <<id>>, ![m].names = <<"t">>], rts)
      [] c.op = "mulnum" ->
            Bound(AllocF(h, LAMBDA fid : [h[o] EXCEPT !.vo = fid, !.arr = [k \in DOMAIN @ |-> [cc \in 1 .. h[o].nv |-> @[k][cc] * c.a.c]]]), rts, c.dst)
      [] c.op = "comp" ->
@@ -458,8 +530,8 @@ P_OperandsUnchanged(h, rts, h2, rts2, c) ==
 (* between fields the cell-wise AND                                                                        *)
 P_ValidityRule(h, rts, h2, rts2, c) ==
    OkStep(c) =>
-      /\ (c.op \in UnaryOps \cup {"mulnum", "comp", "diff"}) => Res(h2, rts2, c).valid = Src(h, rts, c).valid
-      /\ (c.op \in BinaryOps \cup {"lshift"}) => Res(h2, rts2, c).valid = AndArr(Src(h, rts, c).valid, h[rts[c.y]].valid)
+      /\ (c.op \in UnaryOps \cup LengthOps \cup {"mulnum", "comp", "diff"}) => Res(h2, rts2, c).valid = Src(h, rts, c).valid
+      /\ (c.op \in BinaryOps \cup ProductOps \cup {"lshift"}) => Res(h2, rts2, c).valid = AndArr(Src(h, rts, c).valid, h[rts[c.y]].valid)
 (* C08: setting validity never changes stored values and yields a Boolean array of the mesh shape; 'norm' *)
 (* marks exactly the non-zero cells; C08: changing a validity afterwards never alters another field's       *)
 P_SetValid(h, rts, h2, rts2, c) ==
@@ -478,8 +550,11 @@ P_Update(h, rts, h2, rts2, c) ==
       LET o == rts[c.x] IN
       /\ DOMAIN h2 = DOMAIN h /\ rts2 = rts
       /\ \A q \in DOMAIN h : q # o => h2[q] = h[q]
-      /\ h2[o] = [h[o] EXCEPT !.arr = h2[o].arr, !.vx = TRUE]
+      /\ h2[o] = [h[o] EXCEPT !.arr = h2[o].arr, !.vx = h2[o].vx]
+      /\ (c.op # "fromfield" => h2[o].vx)
       /\ (c.op = "updateconst") => \A k \in DOMAIN h2[o].arr : h2[o].arr[k] = [cc \in 1 .. h[o].nv |-> c.a.c + cc - 1]
+      (* C02: for a source field, the value of a source cell containing that centre *)
+      /\ (c.op = "fromfield" /\ h[rts[c.y]].vx) => h2[o].vx /\ h2[o].arr = FromFieldArr(h, o, rts[c.y])
 (* C03: the array is the expression evaluated cell by cell; labels and mapping of the operand with the result's components *)
 P_Cellwise(h, rts, h2, rts2, c) ==
    (OkStep(c) /\ c.op \in AlgebraOps /\ Res(h2, rts2, c).vx) =>
@@ -490,6 +565,9 @@ P_Cellwise(h, rts, h2, rts2, c) ==
               [] c.op = "mulnum"   -> r.arr[k] = [cc \in 1 .. s.nv |-> s.arr[k][cc] * c.a.c]
               [] c.op = "comp"     -> r.arr[k] = <<s.arr[k][c.a.c]>>
               [] c.op = "lshift"   -> r.arr[k] = s.arr[k] \o h[rts[c.y]].arr[k]
+              [] c.op = "dot"      -> r.arr[k] = <<Dot(s.arr[k], h[rts[c.y]].arr[k])>>
+              [] c.op = "cross"    -> r.arr[k] = Cross(s.arr[k], h[rts[c.y]].arr[k])
+              [] c.op \in LengthOps -> TRUE
               [] c.op \in BinaryOps -> \A cc \in 1 .. r.nv :
                     r.arr[k][cc] = BinVal(c.op, Bc(s.arr[k], cc, r.nv), Bc(h[rts[c.y]].arr[k], cc, r.nv))
 (* C07 / C12: value and validity at any point of the result equal the source's at that same point (padding *)
@@ -551,6 +629,22 @@ P_SelSubregions(h, rts, h2, rts2, c) ==
                                                /\ h2[mr.sub[t]].lo = [so.lo EXCEPT ![d] = RMax(rr.lo[d], so.lo[d])]
                                                /\ h2[mr.sub[t]].hi = [so.hi EXCEPT ![d] = RMin(rr.hi[d], so.hi[d])]
       /\ Len(mr.names) <= Len(mo.names)
+(* C06: a directional integral lives on the mesh with that axis removed, with the components, labels of the source *)
+P_Integrate(h, rts, h2, rts2, c) ==
+   (OkStep(c) /\ c.op = "integrate") =>
+      LET f == rts[c.x]  g == rts2[c.dst]  rs == FR(h, f)  rr == FR(h2, g)  d == c.a.d IN
+      /\ rr.lo = RemoveAt(rs.lo, d) /\ rr.hi = RemoveAt(rs.hi, d) /\ rr.dims = RemoveAt(rs.dims, d) /\ rr.units = RemoveAt(rs.units, d)
+      /\ FN(h2, g) = RemoveAt(FN(h, f), d) /\ h2[g].shape = FN(h2, g)
+      /\ h2[g].nv = h[f].nv /\ h2[g].lab = h[f].lab
+(* C14: an accepted assignment leaves exactly the requested subregion, well formed; a refused one is covered by DF_RejectUnchanged *)
+P_SetSub(h, rts, h2, rts2, c) ==
+   (OkStep(c) /\ c.op = "setsub") =>
+      LET m == h[rts[c.x]].mesh  bx == SetSubBox(h, m, c.a) IN
+      /\ SetSubAccepted(h, m, c.a)
+      /\ h2[m].names = <<"t">> /\ Len(h2[m].sub) = 1
+      /\ h2[h2[m].sub[1]].lo = bx.lo /\ h2[h2[m].sub[1]].hi = bx.hi
+      /\ h2[m].n = h[m].n /\ h2[h2[m].region] = h[h[m].region]
+      /\ SubsWellFormed(h2, m)
 (* C10 / C09 / C16 / C17: a write + read round trip is the identity on the attributes the property lists *)
 DeepSubs(h, m) == [s \in DOMAIN h[m].sub |-> [name |-> h[m].names[s], lo |-> h[h[m].sub[s]].lo, hi |-> h[h[m].sub[s]].hi]]
 P_Persist(h, rts, h2, rts2, c) ==
@@ -595,14 +689,14 @@ StepAll(h, rts, h2, rts2, c) ==
    /\ P_SetValid(h, rts, h2, rts2, c) /\ P_Update(h, rts, h2, rts2, c) /\ P_Cellwise(h, rts, h2, rts2, c)
    /\ P_PositionsKept(h, rts, h2, rts2, c) /\ P_CellAligned(h, rts, h2, rts2, c) /\ P_SelSubregions(h, rts, h2, rts2, c)
    /\ P_Persist(h, rts, h2, rts2, c) /\ P_InplaceEqualsCopy(h, rts, h2, rts2, c) /\ P_InplaceReturnsSelf(h, rts, h2, rts2, c)
-   /\ P_AffineExact(h, rts, h2, rts2, c)
+   /\ P_AffineExact(h, rts, h2, rts2, c) /\ P_Integrate(h, rts, h2, rts2, c) /\ P_SetSub(h, rts, h2, rts2, c)
 
 
 (* the step clauses as a set of names of those that fail: `viol` holds it for the last call, so that every   *)
 (* clause is also a plain state invariant (TLC evaluates unprimed operator applications much faster)          *)
 ClauseNames == {"DF_RejectUnchanged", "DF_OperandsUnchanged", "DF_ValidityRule", "DF_SetValid", "DF_Update", "DF_Cellwise",
                 "DF_PositionsKept", "DF_CellAligned", "DF_SelSubregions", "DF_Persist", "DF_InplaceEqualsCopy",
-                "DF_InplaceReturnsSelf", "DF_AffineExact"}
+                "DF_InplaceReturnsSelf", "DF_AffineExact", "DF_Integrate", "DF_SetSub"}
 ClauseHolds(nm, h, rts, h2, rts2, c) ==
    CASE nm = "DF_RejectUnchanged"    -> P_RejectUnchanged(h, rts, h2, rts2, c)
      [] nm = "DF_OperandsUnchanged"  -> P_OperandsUnchanged(h, rts, h2, rts2, c)
@@ -617,6 +711,8 @@ ClauseHolds(nm, h, rts, h2, rts2, c) ==
      [] nm = "DF_InplaceEqualsCopy"  -> P_InplaceEqualsCopy(h, rts, h2, rts2, c)
      [] nm = "DF_InplaceReturnsSelf" -> P_InplaceReturnsSelf(h, rts, h2, rts2, c)
      [] nm = "DF_AffineExact"        -> P_AffineExact(h, rts, h2, rts2, c)
+     [] nm = "DF_Integrate"          -> P_Integrate(h, rts, h2, rts2, c)
+     [] nm = "DF_SetSub"             -> P_SetSub(h, rts, h2, rts2, c)
 Failed(h, rts, h2, rts2, c) == {nm \in ClauseNames : ~ClauseHolds(nm, h, rts, h2, rts2, c)}
 
 (* ---- the actions: one named action per public call ------------------------------------------- *)
@@ -661,6 +757,19 @@ Add       == En("Add") /\ \E x \in FR0, y \in FR0 : \E dst \in Dsts(roots, x) : 
 Mul       == En("Mul") /\ \E x \in FR0, y \in FR0 : \E dst \in Dsts(roots, x) : Do(MkCall("mul", x, y, dst, "self", FALSE, NoA))
 MulNum    == En("MulNum") /\ \E x \in FR0, cc \in Nums : \E dst \in Dsts(roots, x) : Do(MkCall("mulnum", x, "", dst, "self", FALSE, [c |-> cc]))
 Comp      == En("Comp") /\ \E x \in FR0 : \E cc \in 1 .. heap[roots[x]].nv, dst \in Dsts(roots, x) : Do(MkCall("comp", x, "", dst, "self", FALSE, [c |-> cc]))
+Sub       == En("Sub") /\ \E x \in FR0, y \in FR0 : \E dst \in Dsts(roots, x) : Do(MkCall("sub", x, y, dst, "self", FALSE, NoA))
+DotP      == En("Dot") /\ \E x \in FR0, y \in FR0 : \E dst \in Dsts(roots, x) : Do(MkCall("dot", x, y, dst, "self", FALSE, NoA))
+CrossP    == En("Cross") /\ \E x \in FR0, y \in FR0 : \E dst \in Dsts(roots, x) : Do(MkCall("cross", x, y, dst, "self", FALSE, NoA))
+Norm      == En("Norm") /\ \E x \in FR0 : \E dst \in Dsts(roots, x) : Do(MkCall("norm", x, "", dst, "self", FALSE, NoA))
+Orientation == En("Orientation") /\ \E x \in FR0 : \E dst \in Dsts(roots, x) : Do(MkCall("orientation", x, "", dst, "self", FALSE, NoA))
+Integrate == En("Integrate") /\ \E x \in FR0 : \E d \in 1 .. NDx(x), dst \in Dsts(roots, x) : Do(MkCall("integrate", x, "", dst, "self", FALSE, [d |-> d]))
+FromField == En("FromField") /\ \E x \in FR0, y \in FR0 : Do(MkCall("fromfield", x, y, x, "self", TRUE, NoA))
+(* boxes offered to the setter: first cell .. last cell but one layer (accepted), the same shifted by half a cell and one reaching a cell beyond the mesh (refused) *)
+SubBoxes(n) == {[a |-> [d \in DOMAIN n |-> 0], b |-> [d \in DOMAIN n |-> IF n[d] > 1 THEN n[d] - 2 ELSE 0], sh |-> FALSE],
+                [a |-> [d \in DOMAIN n |-> 0], b |-> [d \in DOMAIN n |-> IF n[d] > 1 THEN n[d] - 2 ELSE 0], sh |-> TRUE]}
+               \cup (IF Rich THEN {[a |-> [d \in DOMAIN n |-> n[d] - 1], b |-> [d \in DOMAIN n |-> n[d]], sh |-> FALSE],
+                                   [a |-> [d \in DOMAIN n |-> n[d] - 1], b |-> [d \in DOMAIN n |-> n[d] - 1], sh |-> FALSE]} ELSE {})
+SetSub    == En("SetSub") /\ \E x \in FR0 : \E bx \in SubBoxes(FN(heap, roots[x])) : Do(MkCall("setsub", x, "", x, "mesh", TRUE, bx))
 LShift    == En("LShift") /\ \E x \in FR0, y \in FR0 : \E dst \in Dsts(roots, x) : Do(MkCall("lshift", x, y, dst, "self", FALSE, NoA))
 Diff      == En("Diff") /\ \E x \in FR0 : \E d \in 1 .. NDx(x), dst \in Dsts(roots, x) : Do(MkCall("diff", x, "", dst, "self", FALSE, [d |-> d]))
 SetValidArray == En("SetValidArray") /\ \E x \in FR0, b \in Masks : Do(MkCall("setvalid", x, "", x, "self", TRUE, [kind |-> "array", mask |-> MaskOf(b, Len(heap[roots[x]].valid))]))
@@ -696,6 +805,7 @@ Init == \E sc \in Scenarios :
           /\ viol = {}
 Next == \/ Translate \/ Scale \/ MeshRotate90 \/ FieldRotate90 \/ MkField
         \/ Neg \/ Pos \/ Abs_ \/ Add \/ Mul \/ MulNum \/ Comp \/ LShift \/ Diff
+        \/ Sub \/ DotP \/ CrossP \/ Norm \/ Orientation \/ Integrate \/ FromField \/ SetSub
         \/ SetValidArray \/ SetValidNorm \/ SetValidNone \/ MutateValid \/ UpdateConst \/ SetArray
         \/ SelPlane \/ SelRange \/ GetSub \/ GetRegion \/ Pad \/ Resample
         \/ H5 \/ Ovf \/ Vtk \/ Xarray
@@ -715,6 +825,8 @@ DF_Persist            == [][P_Persist(heap, roots, heap', roots', Last')]_vars
 DF_InplaceEqualsCopy  == [][P_InplaceEqualsCopy(heap, roots, heap', roots', Last')]_vars
 DF_InplaceReturnsSelf == [][P_InplaceReturnsSelf(heap, roots, heap', roots', Last')]_vars
 DF_AffineExact        == [][P_AffineExact(heap, roots, heap', roots', Last')]_vars
+DF_Integrate          == [][P_Integrate(heap, roots, heap', roots', Last')]_vars
+DF_SetSub             == [][P_SetSub(heap, roots, heap', roots', Last')]_vars
 (* the same clauses as state invariants over `viol` *)
 DF_RejectUnchanged_S    == "DF_RejectUnchanged" \notin viol
 DF_OperandsUnchanged_S  == "DF_OperandsUnchanged" \notin viol
@@ -729,4 +841,6 @@ DF_Persist_S            == "DF_Persist" \notin viol
 DF_InplaceEqualsCopy_S  == "DF_InplaceEqualsCopy" \notin viol
 DF_InplaceReturnsSelf_S == "DF_InplaceReturnsSelf" \notin viol
 DF_AffineExact_S        == "DF_AffineExact" \notin viol
+DF_Integrate_S          == "DF_Integrate" \notin viol
+DF_SetSub_S             == "DF_SetSub" \notin viol
 =============================================================================
